@@ -318,6 +318,20 @@ func runConcurrent(c *fw.Ctx, cfg c06cfg) {
 		c.Res.Inconcl = err.Error()
 		return
 	}
+	// the yield points inside pruning and cloning only DELAY here (no channel, no lock: a delay adds
+	// no happens-before edge, so it widens the window between two steps without hiding a race)
+	var yields atomic.Int64
+	iavl.SetVerifHook(func(name string) {
+		if strings.HasPrefix(name, "prune:") || strings.HasPrefix(name, "clone:") {
+			yields.Add(1)
+			runtime.Gosched()
+			time.Sleep(30 * time.Microsecond)
+		}
+	})
+	defer func() {
+		iavl.SetVerifHook(nil)
+		c.Obs("stress_yield_points_passed", int(yields.Load()))
+	}()
 	opts := []iavl.Option{}
 	if cfg.async {
 		opts = append(opts, iavl.AsyncPruningOption(true))
@@ -423,7 +437,11 @@ func runConcurrent(c *fw.Ctx, cfg c06cfg) {
 	vc := 0
 	pruneTarget := int64(0)
 	for round := 0; round < cfg.rounds && len(w.viol) == 0; round++ {
-		for i := 0; i < 1+wrng.Intn(5); i++ {
+		nw := 1 + wrng.Intn(5)
+		if wrng.Intn(5) == 0 || (cfg.async && wrng.Intn(3) == 0) {
+			nw = 0 // a commit without writes: its root is the previous version's root (re-keyed when that is pruned)
+		}
+		for i := 0; i < nw; i++ {
 			k := []byte(fmt.Sprintf("k%03d", wrng.Intn(cfg.keys)))
 			if wrng.Intn(4) == 0 {
 				if _, _, err := t.Remove(k); err != nil {
@@ -664,7 +682,9 @@ func runHookMatrix(c *fw.Ctx, point string, cfg c06cfg) {
 		}
 	}
 	for i := 0; i < 4; i++ {
-		write(4)
+		if !(point == "prune:root-fetched" && i%2 == 1) { // (commits without writes: their roots get re-keyed)
+			write(4)
+		}
 		if !commit() {
 			return
 		}
@@ -769,7 +789,9 @@ func runHookMatrix(c *fw.Ctx, point string, cfg c06cfg) {
 			return
 		}
 		if strings.HasPrefix(point, "prune:") {
-			write(2)
+			if !(point == "prune:root-fetched" && round%2 == 0) {
+				write(2)
+			}
 			if !commit() {
 				return
 			}
@@ -1113,7 +1135,7 @@ func runSeamPause(c *fw.Ctx, cfg c06cfg) {
 	}
 }
 
-var c06Points = []string{"save:after-commit", "save:before-commit", "prune:version-deleted", "prune:after-committing-check", "clone:children-fetched"}
+var c06Points = []string{"save:after-commit", "save:before-commit", "prune:version-deleted", "prune:after-committing-check", "prune:root-fetched", "clone:children-fetched"}
 
 func c06Config(i int, tier string) (kind string, cfg c06cfg, point string) {
 	matrix := []c06cfg{
@@ -1125,6 +1147,9 @@ func c06Config(i int, tier string) (kind string, cfg c06cfg, point string) {
 		{cache: 100, fast: true, async: true, backend: "memdb-delay"},
 		{cache: 10000, fast: true, backend: "goleveldb"},
 		{cache: 3, fast: false, async: true, backend: "goleveldb"},
+		// tiny caches under background pruning: entries are evicted (and their keys read) all the time
+		{cache: 3, fast: true, async: true, backend: "memdb"},
+		{cache: 8, fast: false, async: true, backend: "memdb-delay"},
 	}
 	reps := 4
 	if tier == "thorough" {
@@ -1251,11 +1276,11 @@ func init() {
 			if tier == "thorough" {
 				reps = 100
 			}
-			return 8*reps + len(c06Points)*4 + 8 + 8 + 1
+			return 10*reps + len(c06Points)*4 + 8 + 8 + 1
 		},
 		CaseTimeout: 240e9,
-		Rule: "built with the Go race detector. Case kinds: (stress) 8 configurations {node cache 0/3/100/10000} x {fast index on/off} x {sync pruning, background pruning with the SetCommitting/UnsetCommitting protocol} x {MemDB, MemDB with unsynchronised yields around storage calls, GoLevelDB} x readers in {2,8,16}, repeated 4x (quick) / 100x (thorough): one writer (Set/Remove/SaveVersion/DeleteVersionsTo of versions nobody reads) and N readers that obtain committed versions with GetImmutable and run Get, GetWithIndex, Has, Iterator, IterateRange, GetProof (verified against the commit hash), Export, Hash, GetByIndex - every result compared with the snapshot published at commit; 2 scout goroutines open arbitrary version numbers and the commit/prune/open history is checked with porcupine against the per-version model uncommitted->committed->deleted; background pruning must reach its target within a bound after the writer stops (otherwise inconclusive). " +
-			"(hook) oracle mode: the writer is parked at a verif yield point (in SaveVersion when everything is queued and nothing written; in SaveVersion after the batch commit, before SaveVersion returns; between per-version steps of DeleteVersionsTo; between the committing check and the lock in pruning; in Node.clone) and every reader operation type runs on every published version while it is parked - hook points x reader operations is enumerated. (pause) a reader of the latest version is parked INSIDE its storage read (fast-index entry or node, via a pausing storage wrapper on a freshly opened handle with cold caches) while the writer commits a change of the same key; the reader must return its version's value and afterwards every version must read exactly; every third round uses the \"between\" schedule on a freshly opened handle instead: writer changes k (uncommitted), a reader goroutine reads k in the latest committed version, writer commits, every version must read exactly. (pin) a version with an open Exporter (plus a second, double-closed export of it; half of the cases open the export while the version is still the latest one and commit two more versions) cannot be deleted from another goroutine, its stream is R's complete post-order stream, and the deletion succeeds after Close. " +
+		Rule: "built with the Go race detector. Case kinds: (stress) 10 configurations {node cache 0/3/8/100/10000} x {fast index on/off} x {sync pruning, background pruning with the SetCommitting/UnsetCommitting protocol} x {MemDB, MemDB with unsynchronised yields around storage calls, GoLevelDB} x readers in {2,8,16}, repeated 4x (quick) / 100x (thorough): one writer (Set/Remove/SaveVersion/DeleteVersionsTo of versions nobody reads) and N readers that obtain committed versions with GetImmutable and run Get, GetWithIndex, Has, Iterator, IterateRange, GetProof (verified against the commit hash), Export, Hash, GetByIndex - every result compared with the snapshot published at commit; 2 scout goroutines open arbitrary version numbers and the commit/prune/open history is checked with porcupine against the per-version model uncommitted->committed->deleted; background pruning must reach its target within a bound after the writer stops (otherwise inconclusive). " +
+			"In the stress cases the verif yield points inside pruning and cloning only delay (Gosched + 30us, no synchronisation, hence no happens-before edge) to widen the windows between protocol steps. (hook) oracle mode: the writer is parked at a verif yield point (in SaveVersion when everything is queued and nothing written; in SaveVersion after the batch commit, before SaveVersion returns; between per-version steps of DeleteVersionsTo; between the committing check and the lock in pruning; in Node.clone) and every reader operation type runs on every published version while it is parked - hook points x reader operations is enumerated. (pause) a reader of the latest version is parked INSIDE its storage read (fast-index entry or node, via a pausing storage wrapper on a freshly opened handle with cold caches) while the writer commits a change of the same key; the reader must return its version's value and afterwards every version must read exactly; every third round uses the \"between\" schedule on a freshly opened handle instead: writer changes k (uncommitted), a reader goroutine reads k in the latest committed version, writer commits, every version must read exactly. (pin) a version with an open Exporter (plus a second, double-closed export of it; half of the cases open the export while the version is still the latest one and commit two more versions) cannot be deleted from another goroutine, its stream is R's complete post-order stream, and the deletion succeeds after Close. " +
 			"(canary) one case commits a deliberate unsynchronised write pair inside the harness; its report must appear in the collected logs, otherwise the run is inconclusive. All race-detector reports of all workers are collected from the race logs, deduplicated by the pair of first iavl frames and reported if both accesses are in iavl. distinct = hash(kind, configuration, repetition); non-trivial = >=20 commits overlapped by >=100 reader operations, or a parked overlap, or a pin check.",
 		Assumptions: []string{"only schedules that happened are judged; race reports are schedule dependent", "the harness' registry (which versions are published / in use) is the monitor's own mutex-guarded state", "readers only read versions the writer has not asked to delete (as the property states)"},
 		WorkerEnv: func(work string, shard int) []string {
@@ -1287,7 +1312,7 @@ func init() {
 		},
 		Post: postRaceLogs,
 		Floor: func(obs map[string]int, evals, nontrivial int) string {
-			for _, k := range []string{"reads_Get", "reads_GetWithIndex", "reads_Has", "reads_Iterator", "reads_IterateRange", "reads_GetProof", "reads_Export", "reads_HashAndGetByIndex", "commits", "prunes", "export_pins_checked", "visibility_histories_linearizable", "hook_overlaps_save:after-commit", "hook_overlaps_save:before-commit", "hook_rounds_on_cold_handle", "hook_overlaps_prune:version-deleted", "pause_overlaps", "between_overlaps", "export_pins_of_the_then_latest_version"} {
+			for _, k := range []string{"reads_Get", "reads_GetWithIndex", "reads_Has", "reads_Iterator", "reads_IterateRange", "reads_GetProof", "reads_Export", "reads_HashAndGetByIndex", "commits", "prunes", "export_pins_checked", "visibility_histories_linearizable", "hook_overlaps_save:after-commit", "hook_overlaps_save:before-commit", "hook_rounds_on_cold_handle", "hook_overlaps_prune:version-deleted", "pause_overlaps", "between_overlaps", "export_pins_of_the_then_latest_version", "stress_yield_points_passed"} {
 				if obs[k] < 4 {
 					return fmt.Sprintf("observation %s=%d below floor", k, obs[k])
 				}
